@@ -442,6 +442,11 @@ def classify(name, c, what="matrix"):
             return "dft-inv-padded"
     if name in ("AngularSpectrumPropagator", "FresnelPropagator") and c.get("pad_factor", 1) > 1:
         return "dft-inv-padded"
+    if name == "XRayTransform3D":
+        import linops_ref
+
+        if linops_ref.xray3d_integer_edge(c):
+            return "xray3d-integer-edge"
     if name == "ProjectedGradient" and c["cdiff"] and c["coord"] is not None:
         nax = len(c["shape"]) if c["axes"] is None else len(c["axes"])
         if nax == 1:
@@ -560,6 +565,9 @@ def check_config(ctx, lean, oracle, name, c, op):
         ctx.count("numpy-reference-only")
     if name == "XRayTransform2D":
         if not xray_checks(ctx, lean, oracle, name, c, op, R, case):
+            return
+    elif name == "XRayTransform3D":
+        if not xray3d_checks(ctx, lean, oracle, name, c, op, R, case, tol):
             return
     elif not _close(R, D_np, tol):
         ctx.disagree(f"ref.{name}.matrix", case, _summ(R), _summ(D_np), oracle=oracle, known_id=classify(name, c),
@@ -701,6 +709,67 @@ def xray_checks(ctx, lean, oracle, name, c, op, R, case):
                                  note="angle 0 / pi/2 does not reduce to row / column sums")
                     return False
     return ok
+
+
+def xray3d_checks(ctx, lean, oracle, name, c, op, R, case, tol):
+    """(a) real matrix = DOCUMENTED footprint model (known finding xray3d-integer-edge: footprints whose left edge lies on
+    a bin edge are credited to the next bin by the pinned `ceil` formula); (b) the 1-d footprint splits of the Lean model
+    (coded and documented) against the weights the code computes; (c) mass conservation per view when the detector covers
+    every footprint"""
+    import jax.numpy as jnp
+
+    import linops_ref
+    import opgrid
+    from scico.linop.xray import XRayTransform3D
+
+    sh, det = c["shape"], c["det_shape"]
+    le = linops_ref.xray3d_left_edges(c)  # (views, voxels, 2)
+    dist = np.abs(le - np.round(le))
+    int_edge = bool(np.any(dist < 1e-9))
+    D_doc = linops_ref.r_XRayTransform3D(c)
+    known = None
+    if not _close(R, D_doc, tol):
+        if int_edge and _close(R, linops_ref.r_XRayTransform3D(c, coded=True), tol):
+            known = "xray3d-integer-edge"
+        ctx.count("xray3d-differs-from-documented")
+        ctx.disagree("ref.XRayTransform3D.matrix", case, _summ(R), _summ(D_doc), oracle=oracle, known_id=known,
+                     note="dense matrix of the real projector differs from the documented voxel-footprint model")
+        if known is None or not ctx.is_known(known):
+            return False
+    # (b) Lean 1-d splits on the left edges vs the weights of the code (whole volume = one slab when <= 10 slices)
+    exact_or_far = not bool(np.any((dist > 0) & (dist < 1e-9)))
+    if sh[0] <= 10 and exact_or_far:
+        for v in range(le.shape[0]):
+            r = lean.m.call("x3split", le=fs2b(le[v].ravel()), w=f2b(0.5))
+            coded = np.array(b2fs(r["coded"])).reshape(-1, 2)
+            doc = np.array(b2fs(r["doc"])).reshape(-1, 2)
+            ul_ind, ulw, urw, llw, lrw = XRayTransform3D._calc_weights(tuple(sh), jnp.asarray(op.matrices[v]), tuple(det))
+            got = np.stack([np.asarray(a, dtype=np.float64).ravel() for a in (ulw, urw, llw, lrw)], 1)
+            want = lambda t: np.stack([t[:, 0] * t[:, 1], (0.5 - t[:, 0]) * t[:, 1], t[:, 0] * (0.5 - t[:, 1]), (0.5 - t[:, 0]) * (0.5 - t[:, 1])], 1) * 4  # noqa: E731
+            ctx.count("xray3d-footprint-splits")
+            if not _close(got, want(doc), 1e-6):
+                on_edge = bool(np.any(dist[v] < 1e-9))
+                kid = "xray3d-integer-edge" if (on_edge and _close(got, want(coded), 1e-6)) else None
+                ctx.disagree("linops.XRayTransform3D.weights", dict(case, view=v), _summ(got), _summ(want(doc)), oracle=oracle, known_id=kid,
+                             note="weights of the four detector pixels differ from the documented footprint split (Lean x3ToNextDoc)")
+                if kid is None or not ctx.is_known(kid):
+                    return False
+    # (c) mass conservation per view when every footprint [le, le + 1/2]^2 lies on the detector
+    x = np.abs(common.dyadic(ctx.rng, tuple(sh), bits=3, scale=2.0)) + 0.125
+    y = np.asarray(op(opgrid.unflat(x.ravel(), op.input_shape, np.float64)))
+    for v in range(le.shape[0]):
+        covered = bool(np.all(le[v] >= 0) and np.all(le[v][:, 0] + 0.5 <= det[0]) and np.all(le[v][:, 1] + 0.5 <= det[1]))
+        if not covered:
+            ctx.count("xray3d-detector-does-not-cover")
+            continue
+        ctx.count("xray3d-mass-hypothesis-holds")
+        if not common.close(float(y[v].sum()), float(x.sum()), 1000 * x.size):
+            kid = "xray3d-integer-edge" if bool(np.any(dist[v] < 1e-9)) else None
+            ctx.disagree("linops.XRayTransform3D.mass", dict(case, view=v), float(y[v].sum()), float(x.sum()), oracle=oracle, known_id=kid,
+                         note="the detector covers every voxel footprint but the view does not conserve the total mass")
+            if kid is None or not ctx.is_known(kid):
+                return False
+    return True
 
 
 def dft_checks(ctx, lean, oracle, c, op, case):
@@ -937,6 +1006,7 @@ def _axes_oracle(case):
 
 
 KNOWN_WITNESSES = {
+    "xray3d-integer-edge": ("XRayTransform3D", {"shape": [2, 2, 2], "det_shape": [3, 3], "seq": "X", "angles": [[0.0]], "voxel_spacing": [0.5, 0.5, 0.5], "det_spacing": None}, "matrix"),
     "dft-inv-padded": ("DFT", {"shape": [4], "axes": None, "axes_shape": [8], "norm": None}, "inverse"),
     "projgrad-cdiff-single-axis": ("ProjectedGradient", {"shape": [4], "axes": [0], "coord": [{"array": {"shape": [1, 4], "re": [0.0, 0.25, 1.5, 0.625], "im": None}}], "cdiff": True, "dtype": "float64"}, "matrix"),
 }
